@@ -102,7 +102,7 @@ class ExprLexStream(Stream):
         fixed = ["", "a", "a.b.c", "(1..3)", "('(..' .. x)", "(a)", "((1..2))", "[0]", "[ 'a' ]x", "['a'b']", "'x", "1.", "1..2", "-1.5.",
                  "12abc", "a-b?", "<>=!", "=>", "a||b", "a | f: 'x', y", "x² 1²", "(')..' .. 1)", "(\"..", "(1.\n.2)", "-", "- 1", "a\r\nb"]
         out = [{"base": 0, "src": s} for s in fixed]
-        for _ in range(ctx.scale(2500, 15000)):
+        for _ in range(ctx.scale(2500, 60000)):
             out.append({"base": rng.choice([0, 0, 3, 17, 250]), "src": gen_expr(rng)})
         return out
 
@@ -194,7 +194,7 @@ class LiquidLinesStream(Stream):
         for cs in MARKERS:
             for s in ["", "echo 1", "echo 1\n", "  \n", "\n\necho 1", "echo 1 \r\n\r\nif x\r\n", "# c\necho 2", "echo  'a  b'  \t", "aé 1", "\r", " \r\n x"]:
                 out.append({"cs": cs, "base": 0, "src": s})
-        for _ in range(ctx.scale(1200, 8000)):
+        for _ in range(ctx.scale(1200, 30000)):
             cs = rng.choice(MARKERS)
             mk = cs.replace("{", "") or "#"
             out.append({"cs": cs, "base": rng.choice([0, 10, 99]), "src": gen_liquid_body(rng, mk)})
@@ -252,7 +252,7 @@ class LiquidParseStream(Stream):
         for cs in ("", "{#", "{//"):
             for body in ("echo 1\r\necho 2", "if x\r\n  echo 'a'\r\nendif\r\n", "assign a = 1\n\r\necho a\r", "echo 1\recho 2", "echo 1 \r\n\r\n echo b | upcase\n"):
                 out.append({"cs": cs, "pre": "x\r\n", "open": "{% liquid ", "body": body, "close": "%}", "post": "\ny"})
-        for _ in range(ctx.scale(500, 5000)):
+        for _ in range(ctx.scale(500, 20000)):
             cs = rng.choice(["", "", "{#", "{//"])
             mk = cs.replace("{", "") or "#"
             body = gen_liquid_body(rng, mk)
@@ -370,7 +370,7 @@ class ErrCtxStream(Stream):
     def cases(self, ctx):
         rng = ctx.rng_for("errctx")
         out = [{"text": t} for t in ["", "a", "\n", "a\n", "a\nb", "\r\n", "a\r\nb\r\n", "\n\n\n", "a\rb", "x\x0by", " "]]
-        for _ in range(ctx.scale(250, 2500)):
+        for _ in range(ctx.scale(250, 8000)):
             t = ""
             for _ in range(rng.range(0, 6)):
                 t += rng.choice(LINE_FRAGS) + (rng.choice(BREAKS) if rng.chance(75) else "")
@@ -513,7 +513,7 @@ class LexSpansStream(Stream):
     def cases(self, ctx):
         rng = ctx.rng_for("lexspans")
         out = []
-        for _ in range(ctx.scale(1000, 8000)):
+        for _ in range(ctx.scale(1000, 30000)):
             comments = rng.chance(40)
             ps = gen_pieces(rng, comments)
             if not ps:
@@ -624,7 +624,7 @@ class SpansStream(Stream):
 
     def cases(self, ctx):
         rng = ctx.rng_for("spans")
-        return [{"prog": gen_multiline_program(rng)} for _ in range(ctx.scale(250, 2000))]
+        return [{"prog": gen_multiline_program(rng)} for _ in range(ctx.scale(250, 6000))]
 
     def impl(self, case):
         from liquid.exceptions import LiquidError
@@ -742,7 +742,7 @@ class ErrorsStream(Stream):
 
     def cases(self, ctx):
         rng = ctx.rng_for("errors")
-        return [{"prog": gen_malformed(rng)} for _ in range(ctx.scale(500, 5000))]
+        return [{"prog": gen_malformed(rng)} for _ in range(ctx.scale(500, 20000))]
 
     def impl(self, case):
         import warnings
